@@ -43,6 +43,35 @@ MUTANTS = [
     dict(id="c17-move-without-action", prop="C17", file=S, find="            self.apply_proposer_action(action, self.tip_901());\n        }", repl="            self.apply_proposer_action(action, self.tip_901());\n        } else {\n            self.move_action_fee_multiplier(false, ProposerAction { fee_multiplier_delta: 1, reward_dest: Address::coin_destroy() });\n        }", expect="R1/"),
     dict(id="c17-q-lt-else", prop="C17", file=S, find="        if delta >= 0 {\n            self.fee_multiplier = self.fee_multiplier.saturating_add(scaled_movement);\n        } else {\n            self.fee_multiplier = self.fee_multiplier.saturating_sub(scaled_movement);\n        }",
          repl="        if delta < 0 {\n            self.fee_multiplier = self.fee_multiplier.saturating_sub(scaled_movement);\n        } else {\n            self.fee_multiplier = self.fee_multiplier.saturating_add(scaled_movement);\n        }", expect=None),
+    # ---------------------------------------------------------------- C06
+    dict(id="c06-seal-none", prop="C06", file=S, find="let basis = basis.seal(block.proposer_action);", repl="let basis = basis.seal(None);", expect="R2/seal-arg"),
+    dict(id="c06-return-self", prop="C06", file=S, find="        } else {\n            Ok(basis)\n        }", repl="        } else {\n            Ok(self.clone())\n        }", expect="R2/payload"),
+    dict(id="c06-take", prop="C06", file=S, find="let transactions = block.transactions.iter().cloned().collect::<Vec<_>>();", repl="let transactions = block.transactions.iter().take(1000).cloned().collect::<Vec<_>>();", expect="R2/batch-arg"),
+    dict(id="c06-ignore-batch-error", prop="C06", file=S, find="        basis.apply_tx_batch(&transactions)?;\n        assert!(basis.pools", repl="        let _ = basis.apply_tx_batch(&transactions);\n        assert!(basis.pools", expect="R2/batch-error-propagates"),
+    dict(id="c06-inverted", prop="C06", file=S, find="if basis.header() != block.header {", repl="if basis.header() == block.header {", expect="R1/"),
+    dict(id="c06-compare-height-only", prop="C06", file=S, find="if basis.header() != block.header {", repl="if basis.header().height != block.header.height {", expect="R1/anchor-missing"),
+    dict(id="c06-toblock-no-action", prop="C06", file=S, find="            proposer_action: self.1,\n", repl="            proposer_action: None,\n", expect="R3/field/proposer_action"),
+    dict(id="c06-toblock-skip", prop="C06", file=S, find="transactions: self.0.transactions.iter().cloned().collect(),", repl="transactions: self.0.transactions.iter().skip(1).cloned().collect(),", expect="R3/field/transactions"),
+    dict(id="c06-q-eq-swapped", prop="C06", file=S, find="        if basis.header() != block.header {", repl="        if !(block.header == basis.header()) {", expect=None),
+    # ---------------------------------------------------------------- C07
+    dict(id="c07-swap-roots", prop="C07", file=S, find="coins_hash: inner.coins.root_hash(),", repl="coins_hash: inner.pools.root_hash(),", expect="R1/field/coins_hash"),
+    dict(id="c07-feepool-zero", prop="C07", file=S, find="            fee_pool: inner.fee_pool,\n            fee_multiplier: inner.fee_multiplier,\n            dosc_speed", repl="            fee_pool: CoinValue(0),\n            fee_multiplier: inner.fee_multiplier,\n            dosc_speed", expect="R1/field/fee_pool"),
+    dict(id="c07-previous-same-height", prop="C07", file=S, find=".map(|height| inner.history.get(&BlockHeight(height)).unwrap().hash())", repl=".map(|height| inner.history.get(&BlockHeight(height + 1).min(inner.height)).map(|h| h.hash()).unwrap_or_default())", expect="R1/previous/closure"),
+    dict(id="c07-insert-next-height", prop="C07", file=S, find="new.history.insert(self.0.height, self.header());", repl="new.history.insert(self.0.height + BlockHeight(1), self.header());", expect="R2/history-insert/key"),
+    dict(id="c07-no-height-bump", prop="C07", file=S, find="        new.height += BlockHeight(1);\n        new.stakes.unlock_old((new.height / STAKE_EPOCH).0);", repl="        new.stakes.unlock_old(((new.height + BlockHeight(1)) / STAKE_EPOCH).0);", expect="R2/height/not-incremented"),
+    dict(id="c07-network-rewrite", prop="C07", file=S, find="        new.transactions = Default::default();\n", repl="        new.transactions = Default::default();\n        if new.height.0 == 77_000_000 { new.network = NetID::Testnet; }\n", expect="R3/writer/"),
+    dict(id="c07-insert-key-raw", prop="C07", file=SM, find="    pub fn insert(&mut self, key: K, val: V) {\n        let _timer = STAT_SMT_INSERT_SECS.timer_secs(\"smt insert\");\n\n        let key = tmelcrypt::hash_single(&stdcode::serialize(&key).unwrap());",
+         repl="    pub fn insert(&mut self, key: K, val: V) {\n        let _timer = STAT_SMT_INSERT_SECS.timer_secs(\"smt insert\");\n\n        let key = tmelcrypt::hash_keyed(b\"k\", &stdcode::serialize(&key).unwrap());", expect="R4/insert/key"),
+    dict(id="c07-unsorted-dense", prop="C07", file=S, find="        vv.sort_unstable();\n", repl="", expect="R5/tip908/sorted"),
+    dict(id="c07-stake-key", prop="C07", file=SS, find="tree.insert(k.stdcode().hash().0, &v.stdcode());", repl="tree.insert(k.0 .0, &v.stdcode());", expect="R6/key"),
+    dict(id="c07-q-inner-rename", prop="C07", file=S, find="        let inner = &self.0;\n        Header {\n            network: inner.network,", repl="        let inner = &self.0;\n        let net = inner.network;\n        Header {\n            network: net,", expect=None),
+    # ---------------------------------------------------------------- C08
+    dict(id="c08-dosc-const", prop="C08", file=S, find="            dosc_speed: blk.header.dosc_speed,\n            pools,", repl="            dosc_speed: melstructs::MICRO_CONVERTER,\n            pools,", expect="R2/dosc_speed/not-invariant"),
+    dict(id="c08-fm-default", prop="C08", file=S, find="            fee_multiplier: blk.header.fee_multiplier,\n            tips", repl="            fee_multiplier: Default::default(),\n            tips", expect="R2/fee_multiplier"),
+    dict(id="c08-feepool-from-multiplier", prop="C08", file=S, find="            fee_pool: blk.header.fee_pool,\n            fee_multiplier: blk", repl="            fee_pool: CoinValue(blk.header.fee_multiplier),\n            fee_multiplier: blk", expect="R1/field/fee_pool"),
+    dict(id="c08-coins-from-pools-root", prop="C08", file=S, find="CoinMapping::new(db.get_tree(blk.header.coins_hash.0).unwrap());", repl="CoinMapping::new(db.get_tree(blk.header.pools_hash.0).unwrap());", expect="R1/field/coins"),
+    dict(id="c08-drop-action", prop="C08", file=S, find="        Self(state, blk.proposer_action)", repl="        Self(state, None)", expect="R1/proposer_action"),
+    dict(id="c08-txs-empty", prop="C08", file=S, find="        let transactions = blk.transactions.iter().cloned().collect();\n        let state = UnsealedState {", repl="        let transactions = Default::default();\n        let state = UnsealedState {", expect="R2/transactions"),
     # quiet ones
     dict(id="c05-q-le", prop="C05", file=A, find="if tx.fee < min_fee {", repl="if !(tx.fee >= min_fee) {", expect=None),
     dict(id="c05-q-div65536", prop="C05", file=S, find="CoinValue(self.fee_pool.0 >> 16)", repl="CoinValue(self.fee_pool.0 / 65536)", expect=None),
